@@ -12,14 +12,17 @@ use bump_scope::{Bump, MutBumpVec, MutBumpVecRev};
 use core::alloc::Layout;
 use core::mem::ManuallyDrop;
 
-fn dyn_unallocated<const UP: bool, const REV: bool>() {
+fn dyn_unallocated<const UP: bool, const REV: bool, const VIA_BUMP: bool>() {
     let bump: Bump<VA, S<1, UP, false>> = Bump::unallocated();
     let mut bump = ManuallyDrop::new(bump);
     let vals: [[u8; 3]; 2] = kani::any();
     check!(bump.stats().count() == 0 && bump.stats().allocated() == 0, "C10: an unallocated arena reports chunks");
     set_budget(1);
     let (p, n, first, second) = {
-        let dy: &mut dyn MutBumpAllocatorCoreScope = bump.as_mut_scope();
+        // the concrete type behind the trait object: BumpScope (as_mut_scope) or `&mut Bump` (whose impl forwards to
+        // Bump's own impl of the core trait - a separate set of forwarding methods, fourth-round seeded change)
+        let mut via_bump: &mut Bump<VA, S<1, UP, false>> = &mut *bump;
+        let dy: &mut dyn MutBumpAllocatorCoreScope = if VIA_BUMP { &mut via_bump } else { via_bump.as_mut_scope() };
         if REV {
             let Ok(mut v) = MutBumpVecRev::<[u8; 3], _>::try_with_capacity_in(2, dy) else { return };
             set_budget(0);
@@ -89,9 +92,12 @@ macro_rules! h {
         }
     };
 }
-h!(mutvec_dyn_unallocated_up1, dyn_unallocated::<true, false>());
-h!(mutvec_dyn_unallocated_down1, dyn_unallocated::<false, false>());
-h!(mutvecrev_dyn_unallocated_up1, dyn_unallocated::<true, true>());
-h!(mutvecrev_dyn_unallocated_down1, dyn_unallocated::<false, true>());
+h!(mutvec_dyn_unallocated_up1, dyn_unallocated::<true, false, false>());
+h!(mutvec_dyn_unallocated_down1, dyn_unallocated::<false, false, false>());
+h!(mutvecrev_dyn_unallocated_up1, dyn_unallocated::<true, true, false>());
+h!(mutvecrev_dyn_unallocated_down1, dyn_unallocated::<false, true, false>());
 h!(mutvec_map_in_place_up1, map_in_place_finalise::<true>());
 h!(mutvec_map_in_place_down1, map_in_place_finalise::<false>());
+h!(mutvecrev_dyn_bump_unallocated_up1, dyn_unallocated::<true, true, true>());
+h!(mutvecrev_dyn_bump_unallocated_down1, dyn_unallocated::<false, true, true>());
+h!(mutvec_dyn_bump_unallocated_down1, dyn_unallocated::<false, false, true>());
